@@ -1,7 +1,7 @@
 (* one entry point for the extracted model: first integer = property / function selector *)
 From Coq Require Import ZArith List.
 Import ListNotations.
-Require Import EV.model.Cfg EV.model.Enc EV.model.ChanFileRun EV.model.GroupIds EV.model.C20Run EV.model.FrameRun EV.model.CodecRun EV.model.PoolRun EV.model.Exec EV.model.ExecRun EV.model.Chan EV.model.ChanRun EV.model.Link EV.model.LinkRun EV.model.Ids EV.model.IdsRun EV.model.RSync EV.model.RSyncRun EV.model.ProxyRun EV.model.FdTable EV.model.FdRun EV.model.Term EV.model.TermRun EV.gen.Facts.
+Require Import EV.model.Cfg EV.model.Enc EV.model.ChanFileRun EV.model.GroupIds EV.model.C20Run EV.model.FrameRun EV.model.CodecRun EV.model.PoolRun EV.model.Exec EV.model.ExecRun EV.model.ExecRelRun EV.model.Chan EV.model.ChanRun EV.model.Link EV.model.LinkRun EV.model.Ids EV.model.IdsRun EV.model.RSync EV.model.RSyncRun EV.model.ProxyRun EV.model.FdTable EV.model.FdRun EV.model.Term EV.model.TermRun EV.gen.Facts.
 Open Scope Z_scope.
 
 Definition dispatch (inp : list Z) : list Z :=
@@ -18,6 +18,7 @@ Definition dispatch (inp : list Z) : list Z :=
   | 8 :: 2 :: r => run_writers r
   | 9 :: 0 :: r => run_pool_explore (pool_keep_pending, pool_mailbox_first) r
   | 14 :: r => run_exec {| set_on_error := exec_sets_complete_always; set_on_interrupt := exec_sets_complete_always |} r
+  | 21 :: r => run_exec_rel {| ExecRel.set_on_error := exec_sets_complete_always; ExecRel.set_on_interrupt := exec_sets_complete_always |} r
   | 2 :: r => run_chan {| setcb_atomic := chan_setcb_atomic && chan_receiver_locked |} r
   | 3 :: r => run_link {| setcb_atomic := chan_setcb_atomic && chan_receiver_locked |} r
   | 16 :: r => run_proxy r
